@@ -162,7 +162,8 @@ def server_steps(sc, tr, idx):
                     tail = pb["exch"]["book"][len(pb["exch"]["book"]) - n:] if (pb and n) else []
                     trig = val["triggered"]
                     if trig is None:   # http response has no such field: take what the exchange did
-                        trig = []
+                        pb0 = find_bt(pre, op["id"])
+                        trig = list(range(pb0["exch"]["next_id"], pb["exch"]["next_id"] - n)) if (pb0 and pb) else []
                     out = gt(gl([exch.g_fill(f) for f in val["fills"]]),
                              gl([gt(gn(e["id"]), exch.g_jorder(x)) for e, x in zip(tail, val["admitted"])]),
                              gl([gn(i) for i in trig]))
@@ -482,8 +483,8 @@ def oracle_c20(sc_direct, tr_direct, tr_http, jura_triggered_required=True):
             if ("panic" in rd) != ("panic" in rh):
                 return dict(step=k, op=op, what="one of the two runs panicked")
             break
-        if op["op"] == "now":
-            continue   # both runs use the handler for `now`
+        if op["op"] in ("now", "new"):
+            continue   # `now` goes through the handler in both runs; new_backtest has no HTTP route
         if ("some" in rd) != ("some" in rh):
             return dict(step=k, op=op, what="HTTP answered %s where the in-process call answered %s" % (
                 rh.get("status"), "a result" if "some" in rd else "None"))
